@@ -482,6 +482,28 @@ theorem row_contig {dd : List DimRec} (h : DDWF dd) (hne : dd ≠ []) {nt : Nat}
   congr 1
   grind
 
+/-- a byte position and the start of its element have the same chunk number and seek -/
+theorem addr_floor (dd : List DimRec) {nt : Nat} (hnt : 0 < nt) (p : Nat) :
+    (p - p % nt) % nt = 0 ∧ (p - p % nt) / nt = p / nt ∧
+    chunkNumAt dd nt (p - p % nt) = chunkNumAt dd nt p ∧ seekAt dd nt (p - p % nt) = seekAt dd nt p := by
+  have hdm := Nat.div_add_mod p nt
+  have e : p - p % nt = nt * (p / nt) := by omega
+  have e2 : (p - p % nt) / nt = p / nt := by rw [e, Nat.mul_div_cancel_left _ hnt]
+  refine ⟨by rw [e, Nat.mul_mod_right], e2, ?_, ?_⟩
+  · unfold chunkNumAt updateChunkIndicesSeek; rw [e2]
+  · unfold seekAt updateChunkIndicesSeek; rw [e2]
+
+/-- `row_contig` from ANY byte position `p` (inside an element or not): byte `p + j` lives `p % nt + j` bytes after the
+    seek of `p`'s element, as long as the chunk row is not left -/
+theorem row_contig_any {dd : List DimRec} (h : DDWF dd) (hne : dd ≠ []) {nt : Nat} (hnt : 0 < nt) {p j : Nat}
+    (hj : p % nt + j < rowRem dd (p / nt) * nt) :
+    byteAddr dd nt (p + j) = (chunkNumAt dd nt p, seekAt dd nt p + p % nt + j) := by
+  obtain ⟨f1, f2, f3, f4⟩ := addr_floor dd hnt p
+  have hml := Nat.mod_le p nt
+  have := row_contig h hne hnt f1 (j := p % nt + j) (by rw [f2]; exact hj)
+  rw [show p - p % nt + (p % nt + j) = p + j by omega, f3, f4] at this
+  rw [this, Nat.add_assoc]
+
 /-! ## the piece walk -/
 
 /-- `ps` cuts the byte range `[rp, rp+n)` into consecutive non-empty pieces, each of which occupies consecutive
@@ -498,47 +520,44 @@ theorem walkLoop_done (dd : List DimRec) (nt len fuel rp done : Nat) (sbi spb : 
   | succ f => rw [walkLoop]; simp [Nat.not_lt.2 h]
 
 theorem walkLoop_tiles {dd : List DimRec} (h : DDWF dd) (hne : dd ≠ []) {nt : Nat} (hnt : 0 < nt) (len : Nat) :
-    ∀ (fuel rp done : Nat), done ≤ len → len - done ≤ fuel → rp % nt = 0 →
+    ∀ (fuel rp done : Nat), done ≤ len → len - done ≤ fuel →
     Tiles (byteAddr dd nt) rp
       (walkLoop dd nt len fuel rp done (updateChunkIndicesSeek dd nt rp).1 (updateChunkIndicesSeek dd nt rp).2)
       (len - done) := by
   intro fuel
   induction fuel with
-  | zero => intro rp done _ h2 _; simp only [walkLoop, Tiles]; omega
+  | zero => intro rp done _ h2; simp only [walkLoop, Tiles]; omega
   | succ fuel ih =>
-    intro rp done h1 h2 hal
+    intro rp done h1 h2
     rw [walkLoop]
     by_cases hlt : done < len
     · simp only [hlt, if_true]
-      have hk := cfc_eq h hne nt len done (rp / nt) h1
+      have hoff : rp % nt < nt := Nat.mod_lt _ hnt
+      have hk := cfc_eq h hne nt (len + rp % nt) done (rp / nt) (by omega)
       obtain ⟨r1, _, _⟩ := rowRem_facts h hne (rp / nt)
-      have hrow : 0 < rowRem dd (rp / nt) * nt := Nat.mul_pos r1 hnt
+      have hrow : nt ≤ rowRem dd (rp / nt) * nt := Nat.le_mul_of_pos_left _ r1
       simp only [updateChunkIndicesSeek] at hk ⊢
       simp only [hk]
-      generalize hkd : min (len - done) (rowRem dd (rp / nt) * nt) = k at *
-      have hk0 : 0 < k := by omega
-      have hkl : k ≤ len - done := by omega
-      have hkr : k ≤ rowRem dd (rp / nt) * nt := by omega
-      have hnot : ¬ ((k : Int) ≤ 0) := by omega
-      simp only [hnot, if_false, Int.toNat_natCast, Tiles]
-      refine ⟨trivial, hk0, hkl, ?_, ?_⟩
+      generalize hkd : min (len + rp % nt - done) (rowRem dd (rp / nt) * nt) = k0 at *
+      have hto : ((k0 : Int) - ((rp % nt : Nat) : Int)).toNat = k0 - rp % nt := by omega
+      have hnot : ¬ ((k0 : Int) - ((rp % nt : Nat) : Int) ≤ 0) := by omega
+      simp only [hnot, if_false, hto, Tiles]
+      refine ⟨trivial, by omega, by omega, ?_, ?_⟩
       · intro j hj
-        exact row_contig h hne hnt hal (by omega)
-      · by_cases hfin : k = len - done
+        have := row_contig_any h hne hnt (p := rp) (j := j) (by omega)
+        simpa [chunkNumAt, seekAt, updateChunkIndicesSeek] using this
+      · by_cases hfin : k0 - rp % nt = len - done
         · rw [walkLoop_done _ _ _ _ _ _ _ _ (by omega)]
           simp only [Tiles]; omega
-        · have hkeq : k = rowRem dd (rp / nt) * nt := by omega
-          have hal' : (rp + k) % nt = 0 := by
-            rw [hkeq, Nat.add_mul_mod_self_right]; exact hal
-          have := ih (rp + k) (done + k) (by omega) (by omega) hal'
+        · have := ih (rp + (k0 - rp % nt)) (done + (k0 - rp % nt)) (by omega) (by omega)
           simp only [updateChunkIndicesSeek] at this
-          rw [show len - done - k = len - (done + k) by omega]
+          rw [show len - done - (k0 - rp % nt) = len - (done + (k0 - rp % nt)) by omega]
           exact this
     · simp only [hlt, if_false, Tiles]; omega
 
-theorem walk_tiles {dd : List DimRec} (h : DDWF dd) (hne : dd ≠ []) {nt : Nat} (hnt : 0 < nt) {pos : Nat}
-    (hal : pos % nt = 0) (len : Nat) : Tiles (byteAddr dd nt) pos (walk dd nt pos len) len := by
-  have := walkLoop_tiles h hne hnt len len pos 0 (by omega) (by omega) hal
+theorem walk_tiles {dd : List DimRec} (h : DDWF dd) (hne : dd ≠ []) {nt : Nat} (hnt : 0 < nt)
+    (pos len : Nat) : Tiles (byteAddr dd nt) pos (walk dd nt pos len) len := by
+  have := walkLoop_tiles h hne hnt len len pos 0 (by omega) (by omega)
   simpa [walk] using this
 
 /-- chunk-buffer addresses touched by one piece, in `memcpy` order -/
@@ -846,41 +865,47 @@ theorem rowRem_max {dd : List DimRec} (h : DDWF dd) (hne : dd ≠ []) (x : Nat) 
     simp only [he, if_false]
     omega
 
-/-- everything `calculate_chunk_for_chunk` guarantees at an element-aligned position with bytes remaining -/
+/-- everything the piece length `calculate_chunk_for_chunk(len + elem_off, …) - elem_off` guarantees at ANY byte
+    position `p` with bytes remaining (`elem_off = p % nt_size`) -/
 theorem piece_props {dd : List DimRec} (hw : DDWF dd) (hne : dd ≠ []) {nt : Nat} (hnt : 0 < nt)
-    (p len done : Nat) (hal : p % nt = 0) (hrem : done < len) :
-    ∃ k : Nat, calculateChunkForChunk dd nt len done (updateChunkIndicesSeek dd nt p).1 (updateChunkIndicesSeek dd nt p).2 = (k : Int) ∧
+    (p len done : Nat) (hrem : done < len) :
+    ∃ k : Nat, calculateChunkForChunk dd nt (len + p % nt) done (updateChunkIndicesSeek dd nt p).1
+        (updateChunkIndicesSeek dd nt p).2 - ((p % nt : Nat) : Int) = (k : Int) ∧
       0 < k ∧ k ≤ len - done ∧
-      ((p / nt) % (dd.getLastD default).dimLength % (dd.getLastD default).chunkLength) * nt + k
+      ((p / nt) % (dd.getLastD default).dimLength % (dd.getLastD default).chunkLength) * nt + p % nt + k
         ≤ (dd.getLastD default).chunkLength * nt ∧
-      ((p / nt) % (dd.getLastD default).dimLength) * nt + k ≤ (dd.getLastD default).dimLength * nt ∧
+      ((p / nt) % (dd.getLastD default).dimLength) * nt + p % nt + k ≤ (dd.getLastD default).dimLength * nt ∧
       (k = len - done ∨
-       ((p / nt) % (dd.getLastD default).dimLength % (dd.getLastD default).chunkLength) * nt + k
+       ((p / nt) % (dd.getLastD default).dimLength % (dd.getLastD default).chunkLength) * nt + p % nt + k
           = (dd.getLastD default).chunkLength * nt ∨
-       ((p / nt) % (dd.getLastD default).dimLength) * nt + k = (dd.getLastD default).dimLength * nt) ∧
-      ∀ j, j < k → byteAddr dd nt (p + j) = (chunkNumAt dd nt p, seekAt dd nt p + j) := by
+       ((p / nt) % (dd.getLastD default).dimLength) * nt + p % nt + k = (dd.getLastD default).dimLength * nt) ∧
+      ∀ j, j < k → byteAddr dd nt (p + j) = (chunkNumAt dd nt p, seekAt dd nt p + p % nt + j) := by
   obtain ⟨r1, r2, r3⟩ := rowRem_facts hw hne (p / nt)
   have rm := rowRem_max hw hne (p / nt)
   dsimp only at rm
-  have hk := cfc_eq hw hne nt len done (p / nt) (Nat.le_of_lt hrem)
-  refine ⟨min (len - done) (rowRem dd (p / nt) * nt), hk, ?_⟩
-  have hrow : 0 < rowRem dd (p / nt) * nt := Nat.mul_pos r1 hnt
-  have hcont : ∀ j, j < min (len - done) (rowRem dd (p / nt) * nt) →
-      byteAddr dd nt (p + j) = (chunkNumAt dd nt p, seekAt dd nt p + j) :=
-    fun j hj => row_contig hw hne hnt hal (by omega)
+  have hoff : p % nt < nt := Nat.mod_lt _ hnt
+  have hk := cfc_eq hw hne nt (len + p % nt) done (p / nt) (by omega)
+  have hrow : nt ≤ rowRem dd (p / nt) * nt := Nat.le_mul_of_pos_left _ r1
+  refine ⟨min (len + p % nt - done) (rowRem dd (p / nt) * nt) - p % nt, ?_, ?_⟩
+  · simp only [updateChunkIndicesSeek] at hk ⊢
+    rw [hk]; omega
+  have hcont : ∀ j, j < min (len + p % nt - done) (rowRem dd (p / nt) * nt) - p % nt →
+      byteAddr dd nt (p + j) = (chunkNumAt dd nt p, seekAt dd nt p + p % nt + j) :=
+    fun j hj => row_contig_any hw hne hnt (by omega)
   refine ⟨by omega, by omega, ?_, ?_, ?_, hcont⟩
   all_goals
     clear hcont hk
     generalize dd.getLastD default = dl at *
     generalize (p / nt) % dl.dimLength = a at *
     generalize rowRem dd (p / nt) = R at *
+    generalize p % nt = off at *
     have e2 : (a % dl.chunkLength + R) * nt = a % dl.chunkLength * nt + R * nt := by grind
     have e3 : (a + R) * nt = a * nt + R * nt := by grind
     have m2 := Nat.mul_le_mul_right nt r2
     have m3 := Nat.mul_le_mul_right nt r3
   · omega
   · omega
-  · by_cases hmin : len - done ≤ R * nt
+  · by_cases hmin : len + off - done ≤ R * nt
     · left; omega
     · right
       rcases rm with rm | rm
